@@ -72,7 +72,9 @@ OrientFails(c0, c) ==
     IF OrientOK(c0, c) THEN {}
     ELSE {F("C04", <<"orientation", BadOrientCells(c0, c)>>, OrientSignature(c0, c))}
 
-FiniteFails(c) == IF Finite(c, 1073741824) THEN {} ELSE {F("C06", <<"non-finite coordinate">>, "nonfinite")}
+IsFinite(c) == Finite(c, 1073741824)
+FiniteFails(c) == IF IsFinite(c) THEN {} ELSE {F("C06", <<"non-finite or overflowed coordinate exposed">>,
+                                                 IF FloatingNetlist(c) THEN "nan-floating-netlist" ELSE "nonfinite")}
 
 AreaFails(c) ==
     LET bad == { i \in Movable(c) : ~CentreInArea(c, c.cells[i], 2) } IN
@@ -98,6 +100,7 @@ RefLegal(o) ==
 InflightFails == IF call.inflight # 0 THEN {F("C08", <<"a solve is still running at a callback / end of call", call.inflight>>, "solve-open")} ELSE {}
 CbFails(c) ==
     LET st == call.stage step == Ev.step IN
+    IF ~IsFinite(c) THEN FiniteFails(c) ELSE
     InflightFails \cup FrameFails(c, st = "global") \cup WlFails(c) \cup FiniteFails(c) \cup
     (IF st = "legalize" /\ step = "Detailed" THEN LegalFails("C01", c) \cup OrientFails(call.entry, c) ELSE {}) \cup
     (IF st = "detailed" /\ step = "Detailed"
@@ -113,6 +116,7 @@ CbFails(c) ==
 
 RetFails(c) ==
     LET st == call.stage o == call.obj IN
+    IF ~IsFinite(c) \/ ~IsFinite(call.entry) THEN FiniteFails(c) ELSE
     InflightFails \cup FrameFails(c, st = "global") \cup WlFails(c) \cup FiniteFails(c) \cup
     (IF st = "legalize"
      THEN LegalFails("C01", c) \cup OrientFails(call.entry, c) \cup
@@ -140,6 +144,7 @@ RetFails(c) ==
 
 ThrowFails(c) ==
     LET st == call.stage o == call.obj IN
+    IF ~IsFinite(c) \/ ~IsFinite(call.entry) THEN FiniteFails(c) ELSE
     FrameFails(c, st = "global") \cup
     (IF call.thrower # "none" THEN {}   \* the harness's own callback threw: covered by the protocol checks (C10)
      ELSE IF expect = "reject"
@@ -219,7 +224,7 @@ EndThrow == /\ Is("EndThrow") /\ call.active /\ Ev.obj = call.obj
 BadFate == /\ (Is("Abort") \/ Is("Sanitizer") \/ Is("Timeout"))
            /\ fails' = {F(IF Ev.e = "Sanitizer" /\ Ev.kind = "tsan" THEN "C08"
                           ELSE IF scen = "invalid" THEN "C19" ELSE IF scen = "proto" THEN "C10" ELSE "C07",
-                          <<Ev.e, IF "kind" \in DOMAIN Ev THEN Ev.kind ELSE "", Ev.stderr>>, FateSignature(Ev))}
+                          <<Ev.e, IF "kind" \in DOMAIN Ev THEN Ev.kind ELSE "", Ev.stderr>>, FateSignature(Ev, base))}
            /\ call' = Idle /\ expect' = ""
            /\ l' = l + 1 /\ UNCHANGED <<run, scen, params, base, objs, hist>>
 
